@@ -17,6 +17,14 @@
 (* by the last action (so the state space stays finite and every step's     *)
 (* observable output can be compared with the real node).                   *)
 (*                                                                         *)
+(* sendQ is the association's send queue.  Every send puts its message at   *)
+(* the tail and flushes ONE batch from the head (messages are batched up to *)
+(* Limit bytes; a message that does not fit any more waits for the next     *)
+(* tick; the head always goes).  The application may submit messages while  *)
+(* the connection is Open (AppSend); Open flushes a waiting batch before it  *)
+(* looks at the receive queue, so an answer is never queued behind a         *)
+(* backlog.                                                                 *)
+(*                                                                         *)
 (* Deviations (pinned tree, repaired by fix: commits):                      *)
 (*   D_NoReturnAfterRelease  Open.run goes on to the queues after a release *)
 (*                           event: next_state is overwritten, second DPR   *)
@@ -24,6 +32,8 @@
 (*   D_EofIgnored            Wait-I-CEA and Closing do not look at the peer *)
 (*                           disconnect signal                              *)
 (*   D_RefusedSpins          a refused connection never yields a nack       *)
+(*   D_ClosingKeepsBacklog   Closing does not flush the send queue: a DPR   *)
+(*                           queued behind a backlog never leaves           *)
 (* Decides C06 and C07.                                                     *)
 (***************************************************************************)
 EXTENDS Naturals, Sequences, FiniteSets, TLC
@@ -33,6 +43,8 @@ CONSTANTS Role,          \* "client" | "server"
           IdSet,         \* identifier values of injected requests
           MaxQ,          \* bound on the receive queue
           ValidOnly,     \* inject only messages the validator accepts (used to focus on identifiers)
+          MaxS,          \* bound on the application messages waiting in the send queue
+          Limit, SzApp, SzCER, SzCEA, SzDWR, SzDWA, SzDPR, SzDPA,     \* batch limit and encoded sizes (measured on the real node)
           Deviations
 
 States == {"Closed", "WaitConnAck", "WaitICEA", "Open", "Closing", "WaitReturns", "WaitConnAckElect"}
@@ -40,36 +52,55 @@ Base == {"CER", "CEA", "DWR", "DWA", "DPR", "DPA"}
 Msgs == {[k |-> k, valid |-> v, id |-> i] : k \in Kinds, v \in BOOLEAN, i \in IdSet}
 InjMsgs == {m \in Msgs : (m.k \in {"REQ", "ANS", "MIS", "DPA"} => m.valid) /\ (ValidOnly => m.valid)}     \* validity only matters where it is computed
 
-VARIABLES st, recvQ, active, peerGone, connected, refused, idle, running, released, out, dlv
-vars == <<st, recvQ, active, peerGone, connected, refused, idle, running, released, out, dlv>>
+VARIABLES st, recvQ, sendQ, active, peerGone, connected, refused, idle, running, released, out, dlv
+vars == <<st, recvQ, sendQ, active, peerGone, connected, refused, idle, running, released, out, dlv>>
 
 M(k, i) == [k |-> k, id |-> i]
-Init == /\ st = "Closed" /\ recvQ = <<>> /\ active = FALSE /\ peerGone = FALSE /\ connected = FALSE
+Sz(m) == CASE m.k = "APP" -> SzApp [] m.k = "CER" -> SzCER [] m.k = "CEA" -> SzCEA [] m.k = "DWR" -> SzDWR
+           [] m.k = "DWA" -> SzDWA [] m.k = "DPR" -> SzDPR [] OTHER -> SzDPA
+\* send_message_from_queue: one batch from the head of the queue
+RECURSIVE FlushFrom(_, _, _)
+FlushFrom(q, acc, used) ==
+    IF q = <<>> \/ used > Limit THEN [o |-> acc, q |-> q]
+    ELSE IF acc # <<>> /\ Sz(Head(q)) > Limit - used THEN [o |-> acc, q |-> q]
+    ELSE FlushFrom(Tail(q), Append(acc, Head(q)), used + Sz(Head(q)))
+Flush(q) == FlushFrom(q, <<>>, 0)
+Init == /\ st = "Closed" /\ recvQ = <<>> /\ sendQ = <<>> /\ active = FALSE /\ peerGone = FALSE /\ connected = FALSE
         /\ refused = FALSE /\ idle = FALSE /\ running = FALSE /\ released = TRUE /\ out = <<>> /\ dlv = <<>>
 
 (* ---- environment *)
 \* start() / restart of the same node object; rf: the peer refuses the connection (client only)
 Start(rf) == /\ ~running /\ st = "Closed"
-             /\ running' = TRUE /\ connected' = TRUE /\ released' = FALSE /\ recvQ' = <<>> /\ active' = FALSE
+             /\ running' = TRUE /\ connected' = TRUE /\ released' = FALSE /\ recvQ' = <<>> /\ sendQ' = <<>> /\ active' = FALSE
              /\ peerGone' = FALSE /\ idle' = FALSE /\ out' = <<>> /\ dlv' = <<>>
              /\ refused' = rf
              /\ UNCHANGED st
 Inject(m) == /\ running /\ connected /\ ~released /\ Len(recvQ) < MaxQ
              /\ recvQ' = Append(recvQ, m) /\ out' = <<>> /\ dlv' = <<>>
-             /\ UNCHANGED <<st, active, peerGone, connected, refused, idle, running, released>>
+             /\ UNCHANGED <<st, sendQ, active, peerGone, connected, refused, idle, running, released>>
+\* the application submits a message (send_message); it waits in the send queue for the next tick
+NApp(q) == Cardinality({i \in 1..Len(q) : q[i].k = "APP"})
+AppSend == /\ running /\ st = "Open" /\ ~released /\ NApp(sendQ) < MaxS
+           /\ sendQ' = Append(sendQ, M("APP", 0)) /\ out' = <<>> /\ dlv' = <<>>
+           /\ UNCHANGED <<st, recvQ, active, peerGone, connected, refused, idle, running, released>>
 LocalStop == /\ running /\ st # "Closed" /\ active
              /\ active' = FALSE /\ out' = <<>> /\ dlv' = <<>>
-             /\ UNCHANGED <<st, recvQ, peerGone, connected, refused, idle, running, released>>
+             /\ UNCHANGED <<st, recvQ, sendQ, peerGone, connected, refused, idle, running, released>>
 PeerDisc == /\ running /\ connected /\ ~peerGone /\ ~released
             /\ (st \in {"WaitICEA", "Open", "Closing"} \/ (st = "Closed" /\ Role = "server"))
             /\ peerGone' = TRUE /\ idle' = FALSE /\ out' = <<>> /\ dlv' = <<>>      \* the disconnect is a socket event
-            /\ UNCHANGED <<st, recvQ, active, connected, refused, running, released>>
+            /\ UNCHANGED <<st, recvQ, sendQ, active, connected, refused, running, released>>
 IdleReached == /\ running /\ st = "Open" /\ ~idle /\ ~peerGone
                /\ idle' = TRUE /\ out' = <<>> /\ dlv' = <<>>
-               /\ UNCHANGED <<st, recvQ, active, peerGone, connected, refused, running, released>>
+               /\ UNCHANGED <<st, recvQ, sendQ, active, peerGone, connected, refused, running, released>>
 
-(* ---- one tick.  Result of run() as [next, q, act, o, d, idl, dead] *)
-R(next, q, act, o, d, idl) == [next |-> next, q |-> q, act |-> act, o |-> o, d |-> d, idl |-> idl, dead |-> FALSE]
+(* ---- one tick.  Result of run() as [next, q, act, o, d, idl, dead, sq]; o is what the tick puts on the wire, sq what stays queued *)
+\* a tick that sends msgs: put them at the tail, flush one batch
+RS(next, q, act, msgs, d, idl, sq0) == LET f == Flush(sq0 \o msgs) IN
+    [next |-> next, q |-> q, act |-> act, o |-> f.o, d |-> d, idl |-> idl, dead |-> FALSE, sq |-> f.q]
+\* (outside Open the send queue is empty and the messages of a tick fit one batch)
+R(next, q, act, o, d, idl) == IF o = <<>> THEN [next |-> next, q |-> q, act |-> act, o |-> o, d |-> d, idl |-> idl, dead |-> FALSE, sq |-> sendQ]
+                              ELSE RS(next, q, act, o, d, idl, sendQ)
 Stay(s) == R(s, recvQ, active, <<>>, <<>>, idle)
 
 RunClosed ==
@@ -97,35 +128,39 @@ RunWaitICEA ==
            [] m.k = "CER" -> IF m.valid THEN R("WaitReturns", q, TRUE, <<>>, <<>>, idle) ELSE R("WaitICEA", q, active, <<>>, <<>>, idle)
            [] OTHER -> R("Closed", q, active, <<>>, <<>>, idle)
 
-\* Open: watchdog, release signals, then the send queue before the receive queue
+\* Open: watchdog, release signals, then ONE batch of the send queue, else one message of the receive queue
 RunOpen ==
-    LET wd == IF idle THEN <<M("DWR", 0)>> ELSE <<>>          \* queued by tracking_events, flushed by whoever flushes next
+    LET q0 == IF idle THEN Append(sendQ, M("DWR", 0)) ELSE sendQ          \* tracking_events queues the watchdog request
         release == IF peerGone THEN "peer" ELSE IF ~active THEN "local" ELSE "none"
+        NoSend(next, q, act, d, sq) == [next |-> next, q |-> q, act |-> act, o |-> <<>>, d |-> d, idl |-> FALSE, dead |-> FALSE, sq |-> sq]
     IN IF release = "peer" /\ "D_NoReturnAfterRelease" \notin Deviations
-         THEN R("Closed", recvQ, active, <<>>, <<>>, FALSE)
+         THEN NoSend("Closed", recvQ, active, <<>>, q0)
        ELSE IF release = "local" /\ "D_NoReturnAfterRelease" \notin Deviations
-         THEN R("Closing", recvQ, active, wd \o <<M("DPR", 0)>>, <<>>, FALSE)
+         THEN RS("Closing", recvQ, active, <<M("DPR", 0)>>, <<>>, FALSE, q0)
        ELSE
          \* no release (or the pinned tree's fall-through after one)
-         LET pre == IF release = "local" THEN wd \o <<M("DPR", 0)>> ELSE <<>>      \* only with the deviation
+         LET a == IF release = "local" THEN Flush(Append(q0, M("DPR", 0))) ELSE [o |-> <<>>, q |-> q0]      \* only with the deviation
              nxt0 == IF release = "peer" THEN "Closed" ELSE IF release = "local" THEN "Closing" ELSE "Open"
-             pend == IF release = "local" THEN <<>> ELSE wd                       \* DWR still in the send queue
-         IN IF pend # <<>> THEN R("Open", recvQ, active, pre \o pend, <<>>, FALSE)
-            ELSE IF recvQ = <<>> THEN R(nxt0, recvQ, active, pre, <<>>, FALSE)
-            ELSE LET m == Head(recvQ) q == Tail(recvQ) IN
-                 CASE m.k = "DWR" -> IF m.valid THEN R("Open", q, active, pre \o <<M("DWA", m.id)>>, <<>>, FALSE)
-                                     ELSE R(nxt0, q, active, pre, <<>>, FALSE)
-                   [] m.k = "DWA" -> R(IF m.valid THEN "Open" ELSE "Closing", q, active, pre, <<>>, FALSE)
-                   [] m.k = "DPR" -> R("Closed", q, active, pre \o (IF m.valid THEN <<M("DPA", m.id)>> ELSE <<>>), <<>>, FALSE)
-                   [] m.k = "CER" -> R("Open", q, active, pre \o (IF m.valid THEN <<M("CEA", m.id)>> ELSE <<>>), <<>>, FALSE)
-                   [] m.k = "CEA" -> R(IF m.valid THEN "Open" ELSE nxt0, q, active, pre, <<>>, FALSE)
+             With(r) == [r EXCEPT !.o = a.o \o r.o]
+         IN IF a.q # <<>> THEN With(RS("Open", recvQ, active, <<>>, <<>>, FALSE, a.q))
+            ELSE IF recvQ = <<>> THEN With(NoSend(nxt0, recvQ, active, <<>>, <<>>))
+            ELSE LET m == Head(recvQ) q == Tail(recvQ)
+                     Ans(next, msgs) == With(RS(next, q, active, msgs, <<>>, FALSE, <<>>))
+                 IN
+                 CASE m.k = "DWR" -> IF m.valid THEN Ans("Open", <<M("DWA", m.id)>>) ELSE Ans(nxt0, <<>>)
+                   [] m.k = "DWA" -> Ans(IF m.valid THEN "Open" ELSE "Closing", <<>>)
+                   [] m.k = "DPR" -> Ans("Closed", IF m.valid THEN <<M("DPA", m.id)>> ELSE <<>>)
+                   [] m.k = "CER" -> Ans("Open", IF m.valid THEN <<M("CEA", m.id)>> ELSE <<>>)
+                   [] m.k = "CEA" -> Ans(IF m.valid THEN "Open" ELSE nxt0, <<>>)
                    [] m.k = "MIS" -> IF "D_MisaddressedKills" \in Deviations
-                                     THEN [R(nxt0, q, active, pre, <<>>, FALSE) EXCEPT !.dead = TRUE]
-                                     ELSE R("Open", q, active, pre, <<>>, FALSE)
-                   [] OTHER -> R("Open", q, active, pre, <<M(m.k, m.id)>>, FALSE)         \* REQ, ANS, DPA: handed to the application
+                                     THEN [Ans(nxt0, <<>>) EXCEPT !.dead = TRUE]
+                                     ELSE Ans("Open", <<>>)
+                   [] OTHER -> With(NoSend("Open", q, active, <<M(m.k, m.id)>>, <<>>))         \* REQ, ANS, DPA: handed to the application
 
+\* Closing: what was queued before the DPR (and the DPR itself) still has to leave, one batch per tick
 RunClosing ==
     IF peerGone /\ "D_EofIgnored" \notin Deviations THEN Stay("Closed")
+    ELSE IF sendQ # <<>> /\ "D_ClosingKeepsBacklog" \notin Deviations THEN RS("Closing", recvQ, active, <<>>, <<>>, idle, sendQ)
     ELSE IF recvQ = <<>> THEN Stay("Closing")
     ELSE LET m == Head(recvQ) q == Tail(recvQ) IN
          IF m.k = "DPA" THEN R("Closed", q, active, <<>>, <<>>, idle) ELSE R("Closing", q, active, <<>>, <<>>, idle)
@@ -137,7 +172,7 @@ Tick == /\ running
         /\ LET r == Run IN
              IF r.dead
              THEN \* the state machine thread dies: nothing ticks any more (a violation of the property)
-                  /\ running' = FALSE /\ out' = r.o /\ dlv' = r.d /\ recvQ' = r.q
+                  /\ running' = FALSE /\ out' = r.o /\ dlv' = r.d /\ recvQ' = r.q /\ sendQ' = r.sq
                   /\ UNCHANGED <<st, active, peerGone, connected, refused, idle, released>>
              ELSE /\ st' = r.next /\ recvQ' = r.q /\ dlv' = r.d /\ idle' = r.idl
                   /\ out' = IF peerGone THEN <<>> ELSE r.o        \* nothing reaches a peer that has disconnected
@@ -145,10 +180,11 @@ Tick == /\ running
                      THEN \* (a server still in Closed whose peer disconnected before the CER releases its transport too) \* get_next_state: the thread stops and the association is closed
                           /\ running' = FALSE /\ released' = TRUE /\ connected' = FALSE /\ active' = FALSE
                           /\ peerGone' = FALSE                  \* the transport object is dropped with its signal
-                     ELSE /\ active' = r.act /\ UNCHANGED <<running, released, connected, peerGone>>
+                          /\ sendQ' = r.sq
+                     ELSE /\ active' = r.act /\ sendQ' = r.sq /\ UNCHANGED <<running, released, connected, peerGone>>
                   /\ UNCHANGED refused
 
-Next == (\E rf \in (IF Role = "client" THEN BOOLEAN ELSE {FALSE}) : Start(rf)) \/ (\E m \in InjMsgs : Inject(m)) \/ LocalStop \/ PeerDisc \/ IdleReached \/ Tick
+Next == (\E rf \in (IF Role = "client" THEN BOOLEAN ELSE {FALSE}) : Start(rf)) \/ (\E m \in InjMsgs : Inject(m)) \/ AppSend \/ LocalStop \/ PeerDisc \/ IdleReached \/ Tick
 Spec == Init /\ [][Next]_vars
 
 (* ---- C06 *)
@@ -161,8 +197,12 @@ OpenOnlyAfterCapx ==
 DeliveredOnlyWhileOpen == [][dlv' # <<>> => st = "Open"]_vars
 \* a local stop sends exactly one DPR, from Open, and moves to Closing
 Count(s, k) == Cardinality({i \in 1..Len(s) : s[i].k = k})
-OneDPR == [][Count(out', "DPR") > 0 => (Count(out', "DPR") = 1 /\ st = "Open" /\ st' = "Closing" /\ ~active)]_vars
-NoDPRWhileClosing == [][st = "Closing" => Count(out', "DPR") = 0]_vars
+OneDPR == [][Count(out', "DPR") > 0 => (Count(out', "DPR") = 1 /\ ((st = "Open" /\ st' = "Closing" /\ ~active) \/ st = "Closing"))]_vars
+\* (a DPR that had to wait behind a backlog leaves from Closing; it is still the only one)
+NoDPRWhileClosing == [][(st = "Closing" /\ Count(out', "DPR") > 0) => (Count(out', "DPR") = 1 /\ Count(sendQ, "DPR") = 1)]_vars
+\* a local stop puts exactly one DPR into the send queue and it leaves: at once, or after the batches queued before it
+StopQueuesDPR == [][(Tick /\ running /\ st = "Open" /\ ~active /\ ~peerGone) => Count(out', "DPR") + Count(sendQ', "DPR") = 1]_vars
+BacklogLeaves == [][(Tick /\ running /\ st = "Closing" /\ ~peerGone /\ sendQ # <<>>) => (out' # <<>> /\ Len(sendQ') < Len(sendQ))]_vars
 DPRAnswered == [][(st = "Open" /\ running /\ recvQ # <<>> /\ Head(recvQ).k = "DPR" /\ recvQ' = Tail(recvQ))
                    => (st' = "Closed" /\ (Head(recvQ).valid => out' = <<M("DPA", Head(recvQ).id)>>))]_vars
 \* Closed after a connection ended (the machine no longer runs) implies the transport has been released;
@@ -176,7 +216,8 @@ PeerDiscCloses == [][(Tick /\ peerGone /\ (st \in {"WaitICEA", "Open", "Closing"
 \* anything but a CEA while awaiting one closes it (a CER there enters the unimplemented election states)
 NonCeaCloses == [][(Tick /\ st = "WaitICEA" /\ ~peerGone /\ recvQ # <<>> /\ Head(recvQ).k \notin {"CEA", "CER"}) => st' = "Closed"]_vars
 \* an idle open connection emits exactly one watchdog request and restarts the idle count
-WatchdogOnIdle == [][(Tick /\ st = "Open" /\ idle /\ ~peerGone) => (Count(out', "DWR") = 1 /\ ~idle')]_vars
+\* (behind a backlog of application messages the request leaves with the batch that reaches it)
+WatchdogOnIdle == [][(Tick /\ st = "Open" /\ idle /\ ~peerGone) => (Count(out', "DWR") + Count(sendQ', "DWR") = 1 + Count(sendQ, "DWR") /\ ~idle')]_vars
 \* every base answer echoes the identifiers of the request processed in the same tick (C07)
 AnswersEcho == [][\A i \in 1..Len(out') : out'[i].k \in {"CEA", "DWA", "DPA"} =>
                      (recvQ # <<>> /\ out'[i].id = Head(recvQ).id /\ recvQ' = Tail(recvQ)
